@@ -31,6 +31,9 @@ pub enum Supplier {
 pub struct Cogen {
     pub el: Vec<u32>,
     pub fuels: Vec<(Car, Vec<u32>)>,
+    /// the unit declares its fuel input but no electricity production (accepted by the library)
+    #[serde(default)]
+    pub no_prod: bool,
 }
 
 #[derive(Clone, Debug, Serialize, Deserialize)]
@@ -90,7 +93,7 @@ fn supplier(n: usize) -> BoxedStrategy<Supplier> {
 pub const COGEN_FUELS: [Car; 9] = [Car::GASNATURAL, Car::GASOLEO, Car::GLP, Car::CARBON, Car::BIOCARBURANTE, Car::BIOMASA, Car::BIOMASADENSIFICADA, Car::RED1, Car::RED2];
 
 fn cogen(n: usize) -> BoxedStrategy<Cogen> {
-    (stepvals(n, 100_000), vec((select(COGEN_FUELS.to_vec()), stepvals(n, 200_000)), 1..=3)).prop_map(|(el, fuels)| Cogen { el, fuels }).boxed()
+    (stepvals(n, 100_000), vec((select(COGEN_FUELS.to_vec()), stepvals(n, 200_000)), 1..=3), prop::bool::weighted(0.12)).prop_map(|(el, fuels, no_prod)| Cogen { el, fuels, no_prod }).boxed()
 }
 
 pub fn dhw_case(max_steps: usize) -> BoxedStrategy<DhwCase> {
@@ -207,7 +210,9 @@ impl DhwCase {
             lines.push(mk(23, Kind::Used { srv: Srv::NEPB, car: *car }, cv(v), ""));
         }
         if let Some(cg) = &self.cogen {
-            lines.push(mk(30, Kind::Prod { src: Src::EL_COGEN }, cv(&cg.el), ""));
+            if !cg.no_prod {
+                lines.push(mk(30, Kind::Prod { src: Src::EL_COGEN }, cv(&cg.el), ""));
+            }
             for (car, v) in &cg.fuels {
                 lines.push(mk(30, Kind::Used { srv: Srv::COGEN, car: *car }, cv(v), ""));
             }
@@ -324,7 +329,7 @@ impl DhwCase {
             }
         }
         // on-site and cogenerated electricity used for DHW (incl. auxiliaries), net of the auxiliary share
-        if self.pv.is_some() || self.cogen.is_some() {
+        if self.pv.is_some() || self.cogen.as_ref().map(|cg| !cg.no_prod).unwrap_or(false) {
             let mut el_acs = vec![0.0f64; n];
             let mut el_all = vec![0.0f64; n];
             for s in &self.suppliers {
@@ -348,7 +353,7 @@ impl DhwCase {
             let (mut pv_acs, mut chp_acs) = (0.0, 0.0);
             for t in 0..n {
                 let p = self.pv.as_ref().map(|v| v[t] as f64 / 100.0).unwrap_or(0.0);
-                let g = self.cogen.as_ref().map(|cg| cg.el[t] as f64 / 100.0).unwrap_or(0.0);
+                let g = self.cogen.as_ref().filter(|cg| !cg.no_prod).map(|cg| cg.el[t] as f64 / 100.0).unwrap_or(0.0);
                 if el_all[t] > 0.0 && p + g > 0.0 {
                     let f = f_match(p + g, el_all[t], self.lm);
                     // on-site electricity first, cogenerated electricity on what is left of the use
@@ -361,7 +366,7 @@ impl DhwCase {
             let non_aux = if el_acs_an > 0.0 { 1.0 - aux_an / el_acs_an } else { 1.0 };
             q_ren += pv_acs * non_aux;
             // cogenerated electricity counts in the share that nearby fuels have in the primary energy of its inputs
-            if let Some(cg) = &self.cogen {
+            if let Some(cg) = self.cogen.as_ref().filter(|cg| !cg.no_prod) {
                 let any_nearby = cg.fuels.iter().any(|(car, _)| matches!(car, Car::BIOMASA | Car::BIOMASADENSIFICADA | Car::RED1 | Car::RED2));
                 if el_acs_no_aux_an > 0.0 && chp_acs > 0.0 && any_nearby {
                     let (mut ren_nearby, mut tot) = (0.0, 0.0);
